@@ -47,3 +47,70 @@ def cond(tiers=('quick', 'thorough'), timeout=60.0, expect='confirm', split=None
                               engine=engine))
     return fn
   return deco
+
+
+# ---- known findings consulted by a condition itself ---------------------------------
+# A monitor that can *classify* a violation (e.g. "the abort completed inside window W")
+# asks is_known(property, key): if known_findings.json lists that class with status
+# "known", the run is counted as a known hit (reported as KNOWN-FINDING by the driver) and
+# the condition goes on; otherwise the condition fails and the violation is reported.
+KNOWN_HITS = collections.Counter()
+_KNOWN_CACHE = {}
+
+
+def is_known(prop, key):
+  import json
+  import os
+  if 'data' not in _KNOWN_CACHE:
+    path = os.path.join(os.path.dirname(os.path.dirname(os.path.abspath(__file__))), 'known_findings.json')
+    try:
+      with open(path) as f:
+        _KNOWN_CACHE['data'] = json.load(f).get('findings', [])
+    except Exception:
+      _KNOWN_CACHE['data'] = []
+  for e in _KNOWN_CACHE['data']:
+    if e.get('property') == prop and e.get('key') == key and e.get('status') == 'known':
+      return True
+  return False
+
+
+def known_hit(key):
+  KNOWN_HITS[key] += 1
+
+
+def concrete(x, dom):
+  """The concrete member of `dom` equal to the (possibly symbolic) x: one fork per member, after
+  which the harness computes with a plain Python value (no symbolic arithmetic downstream)."""
+  for c in dom:
+    if x == c:
+      return c
+  raise AssertionError('outside domain')
+
+
+def pin(x, lo, hi):
+  """Concrete int equal to the (possibly symbolic) x in [lo, hi], found by bisection: O(log n) solver
+  decisions per path instead of one per use.  The path tree of the condition is then the domain of the
+  pinned variables, and what follows runs on plain Python ints."""
+  lo, hi = int(lo), int(hi)
+  while lo < hi:
+    mid = (lo + hi) // 2
+    if x <= mid:
+      hi = mid
+    else:
+      lo = mid + 1
+  if x != lo:
+    raise AssertionError('outside domain')
+  return lo
+
+
+def untraced(fn, *a, **k):
+  """Runs fn natively (outside CrossHair's tracer) when called under tracing.  Only for calls whose
+  arguments are concrete (pinned): nothing symbolic may cross this boundary."""
+  try:
+    from crosshair.tracers import NoTracing, is_tracing
+  except Exception:      # pragma: no cover
+    return fn(*a, **k)
+  if is_tracing():
+    with NoTracing():
+      return fn(*a, **k)
+  return fn(*a, **k)
